@@ -113,7 +113,7 @@ def extract(path):
             j += 1
         expr = re.sub(r"\s+", "", src[m.end():j - 1])
         expr = re.sub(r"&&\(\"\"\)$", "", expr)  # trailing && ("message")
-        sites.append({"line": line + 1, "fn": enclosing(lines, line), "expr": canon_expr(rename_locals(lines, line, expr)), "raw": expr, "macro": m.group(1)})
+        sites.append({"line": line + 1, "fn": enclosing(lines, line), "expr": canon_expr(expr), "kexpr": canon_expr(rename_locals(lines, line, expr)), "raw": expr, "macro": m.group(1)})
     return sites
 
 
@@ -233,12 +233,12 @@ def main():
             s["cls"] = classify(s["expr"])
             s["pure"] = not IMPURE.search(s["expr"])
             if any(a <= s["line"] <= b for a, b in tied.get(f, [])) and s["cls"] != "UNMAPPED":
-                s["expr"] = "<tied by a translator: " + s["cls"] + ">"
+                s["kexpr"] = "<tied by a translator: " + s["cls"] + ">"
             inv.append(s)
     snap_path = os.path.join(HERE, "tools", "assert_inventory.json")
-    key = lambda s: (s["file"], s["fn"], s["expr"], s["cls"])
+    key = lambda s: (s["file"], s["fn"], s["kexpr"], s["cls"])   # kexpr: canonical text with positional names for locals
     if "--update" in sys.argv:
-        json.dump(sorted([dict(file=s["file"], fn=s["fn"], expr=s["expr"], cls=s["cls"]) for s in inv], key=lambda d: (d["file"], d["fn"], d["expr"])), open(snap_path, "w"), indent=0)
+        json.dump(sorted([dict(file=s["file"], fn=s["fn"], expr=s["kexpr"], cls=s["cls"]) for s in inv], key=lambda d: (d["file"], d["fn"], d["expr"])), open(snap_path, "w"), indent=0)
         print(f"snapshot updated: {len(inv)} sites")
     # Lean table
     classes = sorted({r[1] for r in RULES})
